@@ -35,7 +35,7 @@ use std::sync::{Arc, Mutex};
 pub const PROGS: &[(&str, &str, u64)] = &[
     // (program, mode, weight)
     ("c18_pie", "plain", 2), ("c18_nopie", "plain", 1), ("c18_staticpie", "plain", 1), ("c18_static", "plain", 1),
-    ("c18_startup", "startup", 3), ("c18_startup_nopie", "startup", 1), ("c18_dl", "dl", 10), ("c18_dl_nopie", "dl", 1),
+    ("c18_startup", "startup", 3), ("c18_startup_nopie", "startup", 1), ("c18_startup2", "startup2", 2), ("c18_dl", "dl", 10), ("c18_dl_nopie", "dl", 1),
 ];
 pub const FNS: &[&str] = &["c18_mark", "c18_own", "c18_callback", "c18a_add", "a_inner", "c18a_via", "c18_shared", "c18b_mul", "b_inner"];
 const F_MARK: usize = 0; const F_OWN: usize = 1; const F_CB: usize = 2; const F_ADD: usize = 3; const F_AIN: usize = 4;
@@ -182,6 +182,9 @@ pub fn ops_of(mode: &str, script: &str) -> Vec<String> {
             ops = vec![v(EXE, F_MARK), v(LIBA, F_ADD), v(LIBA, F_AIN), v(EXE, F_MARK), v(LIBA, F_VIA), v(EXE, F_CB), v(EXE, F_OWN), v(EXE, F_MARK),
                        v(LIBA, F_SH), v(EXE, F_MARK), v(EXE, F_OWN), v(EXE, F_MARK)];
         }
+        "startup2" => {
+            ops = vec![v(EXE, F_MARK), v(LIBA, F_ADD), v(LIBA, F_AIN), v(EXE, F_MARK), v(LIBB, F_MUL), v(LIBB, F_BIN), v(EXE, F_MARK)];
+        }
         _ => {
             let (mut ha, mut hb) = (0u32, 0u32);
             for c in script.chars() {
@@ -260,6 +263,7 @@ pub fn gen_requests(rng: &mut Rng, n: u64, out: &mut Out) -> Vec<String> {
         out.count(&format!("mode.{prog}"), 1);
         req.extend(header(&f, &script));
         let cands: Vec<usize> = match mode { "plain" => vec![F_OWN, F_CB], "startup" => vec![F_OWN, F_CB, F_ADD, F_AIN, F_VIA, F_SH],
+                                             "startup2" => vec![F_ADD, F_MUL, F_AIN, F_BIN, F_ADD, F_MUL],
                                              _ => vec![F_OWN, F_CB, F_ADD, F_AIN, F_VIA, F_SH, F_SH, F_MUL, F_BIN] };
         req.push(format!("C18 req {F_MARK}"));
         for _ in 0..rng.below(3) {
@@ -267,6 +271,7 @@ pub fn gen_requests(rng: &mut Rng, n: u64, out: &mut Out) -> Vec<String> {
             if rng.chance(1, 5) { req.push(format!("C18 break {fi}")); out.count("timing.break_before_start", 1); }
             else { req.push(format!("C18 req {fi}")); out.count("timing.request_before_start", 1); }
         }
+        if rng.chance(1, 4) { let fi = *rng.pick(&[F_OWN, F_CB]); req.push(format!("C18 breakat {fi} {EXE}")); out.count("timing.break_by_address_before_start", 1); }
         if rng.chance(1, 15) { req.push("C18 continue -".into()); out.count("op.continue_before_start", 1); }
         req.push("C18 start -".into());
         let steps = if mode == "dl" { rng.range(4, 16) } else { rng.range(3, 9) };
@@ -402,6 +407,10 @@ fn session(lines: &[String], emit: &mut dyn FnMut(String)) {
     let mut started = false; let mut exited = false; let mut broken: Option<String> = None;
     let startup_objs: Vec<usize> = std::iter::once(EXE).chain(f.ldd.iter().copied()).collect();
     let mut last_maps: Vec<(usize, u64, u64)> = vec![];
+    let mut uninit_keys: BTreeMap<u64, (usize, usize)> = BTreeMap::new();   // spec view of requests made while not running
+    let mut shadowed: BTreeSet<(usize, usize)> = BTreeSet::new();
+    let mut collision_at_exit = false;
+    let mut pending_rel: Vec<(usize, usize, u64)> = vec![];
     let mut stale_at_exit = false; let mut n_user_running = 0usize; let mut exit_checked = false;
     let ofail = |emit: &mut dyn FnMut(String), key: &str, what: String| {
         emit(format!("!oracle {}", json!({"key": key, "what": what, "replay": {"prog": prog, "script": script}})));
@@ -429,6 +438,13 @@ fn session(lines: &[String], emit: &mut dyn FnMut(String)) {
                     // specification: the request covers the function in every object present now; otherwise it waits
                     let here: Vec<usize> = f.fns[fi].iter().map(|p| p.obj).filter(|o| present(*o, started, &loaded)).collect();
                     if !exited {
+                        if !(started && !exited) && r.is_ok() {
+                            // the request is stored by ELF address only: remember which earlier request of another object it meets there
+                            for o in &here { if let Some(pl) = f.place(fi, *o) {
+                                if let Some((o0, f0)) = uninit_keys.get(&pl.gaddr).copied() && o0 != *o { shadowed.insert((o0, f0)); }
+                                uninit_keys.insert(pl.gaddr, (*o, fi));
+                            } }
+                        }
                         if !here.is_empty() { for o in here { livefn.insert((o, fi)); } } else if *c == "req" { pending.insert(fi); }
                     }
                     a.to_string()
@@ -448,6 +464,13 @@ fn session(lines: &[String], emit: &mut dyn FnMut(String)) {
                             "err".into()
                         }
                     }
+                    (Some(p), _) if !started && o == EXE && f.interp && f.objs[0].vaddr0 == 0 => {
+                        // with ASLR off (the debugger switches it off) a dynamic PIE executable is loaded at 0x555555554000
+                        let a = 0x5555_5555_4000u64 + p.gaddr;
+                        let r = live.dbg.set_breakpoint_at_addr(RelocatedAddress::from(a as usize)).map(|_| ());
+                        rewritten = format!("C18 breakat {fi} {o} {a:x}");
+                        if r.is_ok() { pending_rel.push((o, fi, a)); "uninit".into() } else { "err".into() }
+                    }
                     _ => { rewritten = format!("C18 breakat {fi} {o} -"); "skip".into() }
                 }
             }
@@ -464,6 +487,8 @@ fn session(lines: &[String], emit: &mut dyn FnMut(String)) {
                     Ok(other) => format!("other {other:?}").replace(' ', "_"),
                     Err(_) => "err".into(),
                 };
+                // requests by runtime address made before the start count once the address proves to be the function's place
+                if *c == "start" { for (o, fi, a) in pending_rel.drain(..) { if let (Some(b), Some(pl)) = (bias(&f, &maps, o), f.place(fi, o)) && b + pl.gaddr == a { livefn.insert((o, fi)); } } }
                 // ---------------- oracle: the specification's next stop
                 if legal && broken.is_none() {
                     // walk the abstract program from `pos` to the first place that must stop
@@ -506,6 +531,7 @@ fn session(lines: &[String], emit: &mut dyn FnMut(String)) {
                     } else {
                         let key = if r.is_err() && *c == "start" && nonpie { "non-pie-executable-wrong-load-offset" }
                             else if r.is_err() && *c == "start" && !f.interp { "static-executable-start-fails-without-rendezvous" }
+                            else if let Some((_, o, fi)) = want && shadowed.contains(&(o, fi)) { "equal-elf-address-in-two-objects-request-replaced" }
                             else if let Some((_, o, _)) = want && reloaded_since.contains(&o) { "library-breakpoint-lost-after-dlclose-dlopen" }
                             else { "stop-differs-from-specification" };
                         ofail(emit, key, format!("{line}: debugger answered `{ans}`, the program's execution and the requests made say `{want_s}` (program {prog}, script {script}, op {pos})"));
@@ -549,7 +575,8 @@ fn session(lines: &[String], emit: &mut dyn FnMut(String)) {
                         }
                     }
                     // (3) backtrace through the library frame, arguments read in library frames
-                    if let Some((o, fi)) = f.fns.iter().enumerate().find_map(|(fi, ps)| ps.iter().find(|pl| bias(&f, &maps, pl.obj).map(|b| b + pl.gaddr) == Some(a)).map(|pl| (pl.obj, fi))) {
+                    // (only while the session follows the specification: afterwards the position in the program is unknown)
+                    if broken.is_none() && let Some((o, fi)) = f.fns.iter().enumerate().find_map(|(fi, ps)| ps.iter().find(|pl| bias(&f, &maps, pl.obj).map(|b| b + pl.gaddr) == Some(a)).map(|pl| (pl.obj, fi))) {
                         let (names, ips): (Vec<String>, Vec<u64>) = live.dbg.backtrace(*tid).map(|bt| (bt.iter().map(|fr| fr.func_name.clone().unwrap_or_default()).collect(), bt.iter().map(|fr| fr.ip.as_usize() as u64).collect())).unwrap_or_default();
                         let has = |n: &str| names.iter().position(|x| x.ends_with(n));
                         let via_on_stack = pos >= 2 && matches!(ops.get(pos.wrapping_sub(2)), Some(Op::V(_, F_VIA))) && fi == F_CB;
@@ -588,12 +615,23 @@ fn session(lines: &[String], emit: &mut dyn FnMut(String)) {
         let b_s = if exited && stale_at_exit { "unstable".to_string() } else { enc_list(&bps, |s| s.clone()) };
         let libs = libs_of(&f, &live.dbg);
         let l_s = enc_list(&libs, |(id, r)| match r { Some((a, b)) => format!("{id}:{a:x}:{b:x}"), None => format!("{id}:-") });
-        if started && !exited { n_user_running = bps.len(); }
+        if started && !exited {
+            n_user_running = bps.len();
+            // two enabled breakpoints of different objects at the same ELF address?
+            let mut seen: BTreeMap<u64, usize> = BTreeMap::new();
+            collision_at_exit = false;
+            for b in &bps { if let Some(h) = b.strip_prefix('r') {
+                let a = u64::from_str_radix(h, 16).unwrap();
+                for o in [EXE, LIBA, LIBB] { if let (Some(bb), Some(lo), Some(hi)) = (bias(&f, &maps_now, o), lowest(&maps_now, o), highest_end(&maps_now, o)) && a >= lo && a < hi {
+                    if let Some(o0) = seen.insert(a - bb, o) && o0 != o { collision_at_exit = true; }
+                } }
+            } }
+        }
         if exited && !exit_checked {
             exit_checked = true;
             // user breakpoints are kept for the next run when the program ends — those of an unloaded library too
             if bps.len() < n_user_running {
-                let key = if stale_at_exit { "stale-library-breakpoint-dropped-at-exit" } else { "user-breakpoint-lost-at-exit" };
+                let key = if stale_at_exit { "stale-library-breakpoint-dropped-at-exit" } else if collision_at_exit { "equal-elf-address-in-two-objects-request-replaced" } else { "user-breakpoint-lost-at-exit" };
                 ofail(emit, key, format!("{n_user_running} user breakpoints before the program ended, {} after: {:?}", bps.len(), bps));
             }
         }
